@@ -11,7 +11,7 @@ import pymbolic.mapper.unifier as unimod
 from ..core import check, short
 from ..gen import expr as G
 from ..mon.trace import HandlerTrace
-from ..ref import normal
+from ..ref import normal, refsem
 from .c08 import refsub
 
 RULE = ("unifier: patterns over sums, products, quotients, powers, calls, subscripts, comparisons and "
@@ -140,15 +140,42 @@ def replace_exact(e, old, new):
     return e, 0
 
 
+def symmetric_copies(pat):
+    """product over the pattern's commutative nodes of prod(m!) for each operand occurring m
+    times: the number of identical records the unifier returns per distinct one"""
+    import math
+    from collections import Counter as C
+    n = 1
+    for x in G.walk(pat):
+        if isinstance(x, (p.Sum, p.Product)):
+            for m in C(repr(normal.typed_key(c)) for c in x.children).values():
+                n *= math.factorial(m)
+    return n
+
+
 @check("C16.unify")
 def c_unify(ctx, case):
     pat, tgt, cands, mode = case
     declared = set(cands)
+    if symmetric_copies(pat) > 4096:
+        # every pair of identical operands in a pattern sum/product doubles the number of
+        # (identical) records the unifier returns; the statement puts no bound on that, and
+        # the cost says nothing about soundness.  Deterministic skip, counted.
+        ctx.count("skipped_symmetric_record_blowup")
+        return
     ctx.case(None)
     ctx.count("unifier_calls")
     ctx.count("mode:" + mode)
     try:
-        recs = UnidirectionalUnifier(cands)(pat, tgt)
+        # Logical work bound (counted record merges, not seconds): the unifier threads every
+        # incoming record through every operand pair of a commutative node, so k records and
+        # m operands give k**m identical results.  The statement is about what a record says,
+        # not how many copies come back; such cases are skipped and counted.
+        WORK[0] = WORK_BOUND
+        try:
+            recs = UnidirectionalUnifier(cands)(pat, tgt)
+        finally:
+            WORK[0] = None
     except RecursionError:
         raise
     except Exception as ex:  # noqa: BLE001
@@ -160,8 +187,17 @@ def c_unify(ctx, case):
                  f"target {tgt} is pattern {pat} under an injective renaming of {sorted(declared)} "
                  f"(operands shuffled) but no unification record was returned")
     want = normal.ac_key(tgt)
+    judged = set()
     for rec in recs:
         ctx.count("records")
+        try:
+            rk = frozenset(rec.equations)
+        except TypeError:
+            rk = frozenset((normal.typed_key(a), normal.typed_key(b)) for a, b in rec.equations)
+        if rk in judged:
+            ctx.count("records_identical_to_an_earlier_one")
+            continue
+        judged.add(rk)
         binds = {}
         for lhs, rhs in rec.equations:
             if not (isinstance(lhs, p.Variable) and lhs.name in declared):
@@ -332,6 +368,55 @@ def replace_in(e, old_key, new, budget=None):
     return e, 0
 
 
+def replace_nth(e, old_key, new, state):
+    """replace exactly the occurrence number state[0] (pre-order, not descending into a match)"""
+    if isinstance(e, p.Expression) and bridge_key(e, True) == old_key:
+        state[0] -= 1
+        if state[0] == -1:
+            return new, 1
+        # an occurrence nested inside this one is a different position: keep looking
+    if isinstance(e, p.Expression):
+        vals, n = [], 0
+        for _, v in normal.node_fields(e):
+            if isinstance(v, (p.Expression, tuple)) and n == 0:
+                v2, k = replace_nth(v, old_key, new, state)
+                n += k
+                vals.append(v2)
+            else:
+                vals.append(v)
+        return (type(e)(*vals) if n else e), n
+    if isinstance(e, tuple):
+        out, n = [], 0
+        for c in e:
+            if n == 0:
+                c2, k = replace_nth(c, old_key, new, state)
+                n += k
+            else:
+                c2 = c
+            out.append(c2)
+        return (tuple(out) if n else e), n
+    return e, 0
+
+
+def replay_rewrites(cur, steps, target_key, budget):
+    """Is there a choice of positions (the reports do not say which equal occurrence was
+    rewritten) such that applying the reported rewrites in order yields the result?
+    budget: [n] bounds the number of rewrites tried."""
+    if not steps:
+        return bridge_key(cur, True) == target_key
+    key, new = steps[0]
+    i = 0
+    while budget[0] > 0:
+        cur2, n = replace_nth(cur, key, new, [i])
+        if n == 0:
+            break
+        budget[0] -= 1
+        if replay_rewrites(cur2, steps[1:], target_key, budget):
+            return True
+        i += 1
+    return False
+
+
 @check("C16.replace")
 def c_replace(ctx, case):
     subject, pattern = case
@@ -368,28 +453,31 @@ def c_replace(ctx, case):
                      f"no replacement callback ran but {G.src(subject)} became {G.src(result)}")
         return
     ctx.count("replacements_observed", len(calls))
-    # one rewrite at a time: replay them with the instantiation law
-    cur = subject
+    # one rewrite at a time: replay them with the instantiation law.  A report names the
+    # bindings, not the position: every choice among equal occurrences is tried.
+    steps = []
     for kw in calls:
         try:
             inst = instantiate(pattern, kw)
         except KeyError as ex:
             ctx.fail("C16.replace", case, "binding-missing", f"callback got {kw}, missing {ex}")
             return
-        key = bridge_key(inst, True)
-        cur2, n = replace_in(cur, key, cb_result(kw, g), [1])
-        if n == 0:
-            ctx.fail("C16.replace", case, "instantiation-law",
-                     f"rule {G.src(pattern)}: callback received {kw}; the pattern instantiated with "
-                     f"these bindings is {G.src(inst)}, which does not occur in {G.src(cur)} "
-                     f"(subject {G.src(subject)})")
-            return
-        cur = cur2
-        calls_n = n
-    if bridge_key(cur, True) != bridge_key(result, True):
-        ctx.fail("C16.replace", case, "result",
-                 f"replace_all({G.src(subject)}) = {G.src(result)}; replaying the {len(calls)} "
-                 f"reported rewrites gives {G.src(cur)}")
+        steps.append((bridge_key(inst, True), cb_result(kw, g), inst, kw))
+    budget = [400]
+    if replay_rewrites(subject, [(k, n) for k, n, _, _ in steps], bridge_key(result, True), budget):
+        return
+    if budget[0] <= 0:
+        ctx.count("replay_search_budget_exhausted")
+        return
+    if replace_nth(subject, steps[0][0], steps[0][1], [0])[1] == 0:
+        _, _, inst, kw = steps[0]
+        ctx.fail("C16.replace", case, "instantiation-law",
+                 f"rule {G.src(pattern)}: callback received {kw}; the pattern instantiated with "
+                 f"these bindings is {G.src(inst)}, which does not occur in {G.src(subject)}")
+        return
+    ctx.fail("C16.replace", case, "result",
+             f"replace_all({G.src(subject)}) = {G.src(result)}; no choice of positions for the "
+             f"{len(calls)} reported rewrites {[G.src(i) for _, _, i, _ in steps]} reproduces it")
 
 
 def cb_result(kw, g):
@@ -449,9 +537,21 @@ def make_pattern_from(rng, sub):
 MKINDS = ["sum", "prod", "quot", "pow", "call", "sub", "subt", "cmp", "if", "fdiv", "lor", "band", "not"]
 
 
+WORK = [None]      # remaining UnificationRecord.unify calls for the current unifier call
+WORK_BOUND = 120_000
+
+
+def _work_cb(qualname, frame):
+    if WORK[0] is not None and qualname == "UnificationRecord.unify":
+        WORK[0] -= 1
+        if WORK[0] < 0:
+            WORK[0] = None
+            raise refsem.TooCostly()
+
+
 def workload(ctx):
     rng = ctx.rng
-    with HandlerTrace([unimod]) as tr:
+    with HandlerTrace([unimod], callback=_work_cb) as tr:
         for i in range(ctx.per_shard(ctx.pick(2500, 50000))):
             pat = gen(rng, rng.randint(1, 3), PV + TV[:1])
             if not isinstance(pat, p.Expression):
